@@ -173,15 +173,15 @@ var blockMode = os.Getenv("ZCNW_BLOCKS")
 
 var mintedName = encryption.Hash(zcnsc.ADDRESS + ":wzcn_minted_nonce_partition")
 
-// Init parses `init <fee> <minBurn> <minMint> <maxFee> <percentHex> <owner> <minStakePerDelegate> <maxDelegates>
+// Init parses `init <fee> <minBurn> <minMint> <maxFee> <percentHex> <owner> <minStakePerDelegate> <maxDelegates> <otherValid>
 // | accts | users | keys | regs | count | minted` and builds the genesis state.
 func Init(ws []string, nonceUniverse []int64) (*W, error) {
-	if len(ws) < 9 {
+	if len(ws) < 10 {
 		return nil, fmt.Errorf("short init")
 	}
 	secs := [][]string{}
 	cur := []string{}
-	for _, t := range ws[9:] {
+	for _, t := range ws[10:] {
 		if t == "|" {
 			secs = append(secs, cur)
 			cur = []string{}
@@ -190,7 +190,7 @@ func Init(ws []string, nonceUniverse []int64) (*W, error) {
 		}
 	}
 	secs = append(secs, cur)
-	if len(ws[9:]) == 0 || ws[9] != "|" || len(secs) != 7 {
+	if len(ws[10:]) == 0 || ws[10] != "|" || len(secs) != 7 || (ws[9] != "0" && ws[9] != "1") {
 		return nil, fmt.Errorf("bad sections")
 	}
 	secs = secs[1:]
@@ -234,9 +234,15 @@ func Init(ws []string, nonceUniverse []int64) (*W, error) {
 		if err := zcnsc.InitConfig(sctx); err != nil {
 			return err
 		}
-		gn, err := zcnsc.GetGlobalNode(sctx)
+		// read the node from the STATE (not through GetGlobalNode: a process-wide cache there must not be kept in
+		// step with the cases by this very initialisation)
+		gn, err := zcnsc.GetGlobalSavedNode(sctx)
 		if err != nil {
 			return err
+		}
+		gn.MinStakeAmount = 0 // as shipped (sc.yaml min_stake: 0): Validate rejects every update
+		if ws[9] == "1" {
+			gn.MinStakeAmount = 1
 		}
 		gn.MinBurnAmount = currency.Coin(minBurn)
 		gn.MinMintAmount = currency.Coin(minMint)
@@ -333,6 +339,7 @@ func Init(ws []string, nonceUniverse []int64) (*W, error) {
 		x.known[encryption.Hash(stakepool.StakePoolKey(spenum.Authorizer, Keys[k].ID))] = true
 	}
 	x.known[encryption.Hash(storagesc.AUTHORIZERS_COUNT_KEY)] = true
+	x.known[encryption.Hash((&zcnsc.GlobalNode{ID: zcnsc.ADDRESS}).GetKey())] = true
 	x.known[encryption.Hash(mintedName)] = true
 	for i := 0; i < 64; i++ {
 		x.known[encryption.Hash(mintedName+encryption.Hash(":partition:"+strconv.Itoa(i)))] = true
@@ -431,7 +438,22 @@ func (x *W) State() string {
 		}
 	}
 	x.leaves = lv
-	return fmt.Sprintf("a=%s u=%s c=%s r=%s p=%s m=%s x=%d", strings.Join(as, ","), strings.Join(us, ","), cs, strings.Join(rs, ","), strings.Join(ps, ";"), strings.Join(ms, ","), unexpected)
+	g := "?"
+	if gn, err := zcnsc.GetGlobalSavedNode(sctx); err == nil {
+		ow := -1
+		for i := 0; i <= NIDs; i++ {
+			if idOf(i) == gn.OwnerId {
+				ow = i
+			}
+		}
+		ov := 0
+		if gn.MinStakeAmount >= 1 && gn.MaxStakeAmount >= 1 && gn.MinAuthorizers >= 1 && gn.HealthCheckPeriod > 0 {
+			ov = 1
+		}
+		g = fmt.Sprintf("%d,%d,%d,%016x,%d,%d,%d,%d", uint64(gn.MinBurnAmount), uint64(gn.MinMintAmount), uint64(gn.MaxFee), math.Float64bits(gn.PercentAuthorizers),
+			ow, uint64(gn.MinStakePerDelegate), gn.MaxDelegates, ov)
+	}
+	return fmt.Sprintf("g=%s a=%s u=%s c=%s r=%s p=%s m=%s x=%d", g, strings.Join(as, ","), strings.Join(us, ","), cs, strings.Join(rs, ","), strings.Join(ps, ";"), strings.Join(ms, ","), unexpected)
 }
 
 func classify(fn, out string) string {
@@ -487,6 +509,17 @@ func classify(fn, out string) string {
 			return "noChange"
 		case has("failed to get or create stake pool"):
 			return "settings"
+		}
+	case "update-global-config":
+		switch {
+		case has("only the owner can access"):
+			return "notOwner"
+		case has("cannot validate changes"):
+			return "validate"
+		case has("unable to convert") || has("cannot convert") || has("not recognised") || has("not found"):
+			return "update"
+		case has("invalid character") || has("cannot unmarshal") || has("unexpected end"):
+			return "decode"
 		}
 	case "delete-authorizer":
 		switch {
@@ -628,6 +661,67 @@ func (x *W) Step(op string) string {
 				Keys[k].PK, k, wallet, md, strconv.FormatFloat(math.Float64frombits(rb), 'g', -1, 64))
 		}
 		status, cls, _ = x.exec(sender, value, fee, nonce, "add-authorizer", input)
+	case "updcfg":
+		input := "not json"
+		if arg != "!" {
+			fields := map[string]string{}
+			if arg != "-" {
+				for _, kv := range strings.Split(arg, ",") {
+					f := strings.Split(kv, "=")
+					if len(f) != 2 {
+						return "bad-op"
+					}
+					var key, val string
+					switch f[0] {
+					case "mb", "mm", "sd": // ZCN amounts: the coin value as a decimal number of ZCN (10 decimals)
+						n, err := strconv.ParseUint(f[1], 10, 64)
+						if err != nil {
+							return "bad-op"
+						}
+						key = map[string]string{"mb": "min_burn", "mm": "min_mint", "sd": "min_stake_per_delegate"}[f[0]]
+						val = strings.TrimRight(strings.TrimRight(fmt.Sprintf("%d.%010d", n/10000000000, n%10000000000), "0"), ".")
+					case "mf":
+						if _, err := strconv.ParseUint(f[1], 10, 64); err != nil {
+							return "bad-op"
+						}
+						key, val = "max_fee", f[1]
+					case "pa":
+						b, err := strconv.ParseUint(f[1], 16, 64)
+						if err != nil || len(f[1]) != 16 {
+							return "bad-op"
+						}
+						key, val = "percent_authorizers", strconv.FormatFloat(math.Float64frombits(b), 'g', -1, 64)
+					case "ow":
+						o, err := strconv.Atoi(f[1])
+						if err != nil || o < 0 {
+							return "bad-op"
+						}
+						key, val = "owner_id", idOf(o)
+					case "md":
+						if _, err := strconv.Atoi(f[1]); err != nil {
+							return "bad-op"
+						}
+						key, val = "max_delegates", f[1]
+					case "bad":
+						v, err := strconv.Atoi(f[1])
+						if err != nil || v < 0 {
+							return "bad-op"
+						}
+						bad := [][2]string{{"no_such_setting", "1"}, {"min_lock", "x"}, {"health_check_period", "soon"}, {"min_authorizers", "1.5"}}[v%4]
+						key, val = bad[0], bad[1]
+					default:
+						return "bad-op"
+					}
+					if _, dup := fields[key]; dup {
+						return "bad-op"
+					}
+					fields[key] = val
+				}
+			}
+			b, _ := json.Marshal(map[string]interface{}{"fields": fields})
+			input = string(b)
+		}
+		status, cls, _ = x.exec(sender, value, fee, nonce, "update-global-config", input)
 	case "delauth":
 		input := "not json"
 		if arg != "!" {
